@@ -82,4 +82,23 @@ let cmd_nav req =
               ("highlight", Arr (List.map jspan (document_highlight a f l c))) ]
       | _ -> Null) (to_list (field req "positions")))) ]
 
-let () = main_loop [ ("qts", cmd_qts); ("use_pairs", cmd_use_pairs); ("nav", cmd_nav) ]
+(* {"cmd":"rename","graph":..,"analysis":..,"slices":[[span,"text"],..],"requests":[[file,line,col,"new"],..]} *)
+let cmd_rename req =
+  let g = graph_of (field req "graph") in
+  let a = analysis_of (field req "analysis") in
+  let fuel = fuel_of req in
+  let slices = List.map (fun e -> match to_list e with [sp; t] -> (span_of sp, to_str t) | _ -> failwith "slice") (to_list (field req "slices")) in
+  let slice (s : span) : n list list =
+    match List.find_opt (fun (s', _) -> s' = s) slices with
+    | Some (_, t) -> if String.contains t ' ' then [ident_of_string t] else split_path t
+    | None -> [] in
+  Obj [ ("answers", Arr (List.map (fun q ->
+      match to_list q with
+      | [f; l; c; nn] ->
+        (match rename_handler fuel g a slice (nat_of f) (nat_of l) (nat_of c) (ident_of_string (to_str nn)) with
+         | RenNone -> Null
+         | RenOutOfFuel -> Obj [ ("out_of_fuel", Bool true) ]
+         | RenEdits (_, edits) -> Arr (List.map (fun e -> Arr [jspan e.ed_span; Str (join_path e.ed_text)]) edits))
+      | _ -> Null) (to_list (field req "requests")))) ]
+
+let () = main_loop [ ("rename", cmd_rename); ("qts", cmd_qts); ("use_pairs", cmd_use_pairs); ("nav", cmd_nav) ]
